@@ -496,6 +496,59 @@ func (e *Engine) oblige(st *State, kind, goal, pos, desc string, tags []string) 
 
 // splitAnd flattens a top-level conjunction into its conjuncts.
 func splitAnd(t string) []string {
+	if strings.HasPrefix(t, "(forall (") {
+		// (forall (vars) (=> G (and A B))) distributes over the conjunction
+		d := 0
+		end := -1
+		for i := len("(forall "); i < len(t); i++ {
+			if t[i] == '(' {
+				d++
+			} else if t[i] == ')' {
+				d--
+				if d == 0 {
+					end = i
+					break
+				}
+			}
+		}
+		if end > 0 {
+			vars := t[len("(forall ") : end+1]
+			body := strings.TrimSpace(t[end+1 : len(t)-1])
+			guard := ""
+			if strings.HasPrefix(body, "(=> ") {
+				parts := topLevelArgs(body[4 : len(body)-1])
+				if len(parts) == 2 {
+					guard, body = parts[0], parts[1]
+				}
+			}
+			sub := splitAnd(body)
+			if len(sub) > 1 {
+				var out []string
+				for _, s := range sub {
+					if guard != "" {
+						s = "(=> " + guard + " " + s + ")"
+					}
+					out = append(out, "(forall "+vars+" "+s+")")
+				}
+				return out
+			}
+		}
+		return []string{t}
+	}
+	if strings.HasPrefix(t, "(=> ") {
+		parts := topLevelArgs(t[4 : len(t)-1])
+		if len(parts) == 2 {
+			sub := splitAnd(parts[1])
+			if len(sub) > 1 {
+				var out []string
+				for _, s := range sub {
+					out = append(out, "(=> "+parts[0]+" "+s+")")
+				}
+				return out
+			}
+		}
+		return []string{t}
+	}
 	if !strings.HasPrefix(t, "(and ") {
 		return []string{t}
 	}
@@ -1219,4 +1272,26 @@ func (e *Engine) frameFormula(lf loopFrame, now, skolem string) string {
 		return body
 	}
 	return fmt.Sprintf("(forall ((r Int)) (! %s :pattern ((select %s r))))", body, now)
+}
+
+// topLevelArgs splits "a (b c) d" into its top-level s-expressions.
+func topLevelArgs(body string) []string {
+	var out []string
+	d, start := 0, 0
+	for i := 0; i <= len(body); i++ {
+		if i == len(body) || (body[i] == ' ' && d == 0) {
+			if i > start {
+				out = append(out, body[start:i])
+			}
+			start = i + 1
+			continue
+		}
+		switch body[i] {
+		case '(':
+			d++
+		case ')':
+			d--
+		}
+	}
+	return out
 }
